@@ -67,6 +67,9 @@ fn main() {
     let work = arg(&args, "--work").expect("--work");
     std::fs::create_dir_all(&work).expect("work dir");
     let mut out = util::TraceWriter::create(&output);
+    if lens == "topic" || lens == "cat" || lens == "log" {
+        out.clamp = 200_000_000; // their specifications sum counts and sizes over partitions, topics and streams
+    }
     let mut tool_errors: Vec<String> = vec![];
     let t0 = std::time::Instant::now();
     let n = match lens.as_str() {
